@@ -21,6 +21,7 @@ import (
 	"gitlab.com/yawning/obfs4.git/internal/zzverif/rnd"
 	"gitlab.com/yawning/obfs4.git/internal/zzverif/sched"
 	"gitlab.com/yawning/obfs4.git/internal/zzverif/wire"
+	"gitlab.com/yawning/obfs4.git/transports/base"
 )
 
 func fail(c *mc.Ctx, oracle, key, format string, a ...any) {
@@ -350,6 +351,7 @@ func scenarios(cfg *mc.Config, emit func(mc.Scenario)) {
 	for _, first := range []string{"resp-write-error", "client-leaves", "garbage", "ok"} {
 		emit(abortedThenConnect(seed, first))
 	}
+	emit(twoBridges(seed))
 	for _, order := range [][]string{{"P0", "P1", "D0", "D1"}, {"P0", "P1", "D1", "D0"}, {"P0", "D0", "P1", "P2", "D2", "D1"}} {
 		emit(parseDialOrders(seed, order))
 	}
@@ -593,6 +595,93 @@ func parseDialOrders(seed int64, order []string) mc.Scenario {
 			fail(c, "no-panic", "panic/parse-dial-orders", "%s", res.Panics[0])
 		}
 		c.Observe("orders", fmt.Sprint(sum))
+	}}
+}
+
+// twoBridges: one client factory (one process) used for two bridges with
+// different identities, alternately; every connection completes with its own
+// bridge and carries data, and a bridge line of A dialled to B's server fails
+// -- also after A and B have both been used (state a factory keeps per bridge).
+func twoBridges(seed int64) mc.Scenario {
+	return mc.Scenario{Name: "two-bridges/one-factory", Weight: 10, Run: func(c *mc.Ctx) {
+		brs := map[byte]*o4h.Bridge{'A': o4h.NewBridge(seed, "c02/A", 0, false), 'B': o4h.NewBridge(seed, "c02/B", 0, false)}
+		rnd.Install(rnd.New(seed, "c02-real-two"))
+		sfs := map[byte]base.ServerFactory{}
+		for k, br := range brs {
+			sf, err := br.ServerFactory()
+			if err != nil {
+				fail(c, "setup", "setup", "%v", err)
+				return
+			}
+			sfs[k] = sf
+		}
+		var sum []string
+		res := sched.Run(c, sched.Options{NoPreempt: true, NoEarlyTimers: true, MaxSteps: 3_000_000}, func() {
+			s := sched.Cur()
+			// step "XY": the bridge line of X dialled to the server of Y
+			for i, step := range []string{"AA", "BB", "AB", "AA", "BA", "BB"} {
+				line, srv := step[0], step[1]
+				cw, sw := wire.Pipe(fmt.Sprint("client", i), fmt.Sprint("server", i))
+				var wrapErr error
+				var srvGot []byte
+				done := false
+				s.Spawn(fmt.Sprint("server", i), func() {
+					defer func() { done = true }()
+					var conn net.Conn
+					conn, wrapErr = sfs[srv].WrapConn(sw)
+					if wrapErr != nil {
+						return
+					}
+					buf := make([]byte, 64)
+					nr, err := conn.Read(buf)
+					if err != nil {
+						return
+					}
+					srvGot = append([]byte{}, buf[:nr]...)
+					conn.Write(buf[:nr])
+				})
+				conn, dialErr := o4h.Dial(brs[line].ClientArgs("cert", sfs[line]), cw)
+				msg := []byte(fmt.Sprintf("hello-%d-%s", i, step))
+				var echo []byte
+				if dialErr == nil {
+					conn.Write(msg)
+					buf := make([]byte, 64)
+					for len(echo) < len(msg) {
+						nr, err := conn.Read(buf)
+						echo = append(echo, buf[:nr]...)
+						if err != nil {
+							break
+						}
+					}
+					conn.Close()
+				} else {
+					cw.Close()
+				}
+				s.Point(fmt.Sprint("server-done", i), func() bool { return done || line != srv })
+				sum = append(sum, fmt.Sprintf("%s:%v/%v/%d", step, dialErr != nil, wrapErr != nil, len(echo)))
+				what := fmt.Sprintf("step %d: the bridge line of %c dialled to the server of %c (history AA BB AB AA BA BB, one client factory)", i, line, srv)
+				if line == srv {
+					if dialErr != nil || wrapErr != nil {
+						fail(c, "must-complete", "rejected/two-bridges", "%s: Dial=%v WrapConn=%v", what, dialErr, wrapErr)
+						return
+					}
+					if !bytes.Equal(echo, msg) || !bytes.Equal(srvGot, msg) {
+						fail(c, "session-keys", "echo/two-bridges", "%s: echo %q, server saw %q, want %q", what, echo, srvGot, msg)
+						return
+					}
+				} else if dialErr == nil {
+					fail(c, "must-fail", "completed/two-bridges", "%s: the handshake completed (echo %q)", what, echo)
+					return
+				} else if len(srvGot) > 0 {
+					fail(c, "must-fail", "data/two-bridges", "%s: the server received application data %q", what, srvGot)
+					return
+				}
+			}
+		})
+		if len(res.Panics) > 0 {
+			fail(c, "no-panic", "panic/two-bridges", "%s", res.Panics[0])
+		}
+		c.Observe("two", fmt.Sprint(sum))
 	}}
 }
 
